@@ -6,6 +6,7 @@ package sim
 import (
 	"fmt"
 	"math/big"
+	"os"
 	"sort"
 	"strings"
 	"time"
@@ -142,6 +143,38 @@ func judgeC05(c *Ctx, sc *Scenario) *Violation {
 	sel := &Selection{Opts: p.RefOpts, HasRoots: false, GM: gm}
 	roots := walkedRoots(w, sel, nil)
 	ex := w.Expect(roots)
+	// Bombs without merely declared sizes are first given to the real binary
+	// under a real-time limit: an analysis that re-expands shared subtrees
+	// (time proportional to the expanded size) would never return, and a
+	// CPU-bound loop cannot be seen by the fake-time watchdog of engine A.
+	declared := false
+	for _, o := range w.Objects {
+		if o.DeclaredSize != nil {
+			declared = true
+		}
+	}
+	if !declared && os.Getenv("VERIF_GITSIZER_BIN") != "" {
+		b := *sc
+		b.Plan = Plan{}
+		b.Inv.Args = append([]string{"--no-progress"}, sc.Inv.Args...)
+		rb := RunB(&b, site, BOpts{Timeout: 45 * time.Second})
+		c.Stats.CLIRuns++
+		c.Stats.Probe("bombs-timed-on-the-real-binary")
+		if rb.Hang {
+			return &Violation{"C05/not-linear-time", fmt.Sprintf("the real binary did not finish within 45 s on %d distinct objects (args %q)", len(ex.Closure), sc.Inv.Args)}
+		}
+		if rb.Panic != "" {
+			return &Violation{"C05/panic", "engine B: " + firstLines(rb.Panic, 8)}
+		}
+		if !rb.Failed {
+			if gb, err := ParseJSONObject(rb.Stdout); err == nil {
+				if bad := ex.CompareV1(gb, AllNumericFields); len(bad) > 0 {
+					sort.Strings(bad)
+					return &Violation{"C05/mismatch:" + strings.SplitN(bad[0], ":", 2)[0], "real binary on real git: " + strings.Join(bad, "; ")}
+				}
+			}
+		}
+	}
 	t0 := time.Now()
 	res := RunA(c.T, c.H, sc, site)
 	wall := time.Since(t0)
